@@ -19,7 +19,7 @@ RULE = ('one case = one validator specification (kind + limit tuple) probed '
         'non-trivial when at least one probe was decided by the oracle')
 ASSUMPTIONS = [
     'exceptions from a validator on a non-numeric probe count as "not accepted"',
-    'within_percent: probes within 4 ulp of a computed limit are "don\'t care"',
+    'within_percent: the declared minimum/maximum must lie within 4 ulp of the exact limits and then decide every probe exactly (only if they cannot be read are probes within 4 ulp of a computed limit "don\'t care")',
     'equals(str): literal + one trailing newline is "don\'t care" (statement)',
     'constructor rejection is demanded only when all limits involved are numbers',
 ]
@@ -555,11 +555,28 @@ def run_case(case):
         probes += [float(e) - mt, float(e) + mt,
                    math.nextafter(float(e) - mt, -INF),
                    math.nextafter(float(e) + mt, INF)]
+      # the limits the validator itself declares (what it prints and what the
+      # output formats publish): close to the exact ones, and decisive
+      dk, dlim = call(lambda: (v.minimum, v.maximum))
+      declared = None
+      if dk == 'ok' and all(isinstance(x, (int, float)) and not isinstance(x, bool)
+                            and math.isfinite(x) for x in dlim):
+        declared = (Fraction(dlim[0]), Fraction(dlim[1]))
+        if abs(declared[0] - lo) > eps or abs(declared[1] - hi) > eps:
+          ctx.bad('within_percent:declared-limits-off', e=e, p=p,
+                  declared=[repr(x) for x in dlim])
+          declared = None
+        else:
+          for base in dlim:
+            base = float(base)
+            probes += [base, math.nextafter(base, INF), math.nextafter(base, -INF)]
       for pr in probes:
         if pr is None or (isinstance(pr, float) and math.isnan(pr)):
           expected = False
         elif isinstance(pr, float) and math.isinf(pr):
           expected = False
+        elif declared is not None:
+          expected = declared[0] <= Fraction(pr) <= declared[1]
         else:
           d = abs(Fraction(pr) - Fraction(e))
           expected = (True if d <= tol - eps else
